@@ -1,0 +1,28 @@
+//go:build verif
+
+// Package verifhook provides scheduling points for the verification harness.
+package verifhook
+
+import "sync"
+
+var (
+	mu sync.RWMutex
+	fn func(point string)
+)
+
+// Set installs the callback invoked at every Yield point (nil removes it).
+func Set(f func(point string)) {
+	mu.Lock()
+	fn = f
+	mu.Unlock()
+}
+
+// Yield marks a point where the verification harness may hold the calling goroutine.
+func Yield(point string) {
+	mu.RLock()
+	f := fn
+	mu.RUnlock()
+	if f != nil {
+		f(point)
+	}
+}
